@@ -21,10 +21,10 @@ import vlib
 
 LEVEL = "proof"
 MODULE = "Sqfs.Props.C15"
-REQUIRED = []
-REQUIRED_FINAL = ["Sqfs.C15.ostream_flush_terminates", "Sqfs.C15.ostream_transparent", "Sqfs.C15.istream_transparent",
-            "Sqfs.C15.truncated_is_error", "Sqfs.C15.process_data_meets_contract_enc",
-            "Sqfs.C15.process_data_meets_contract_dec", "Sqfs.C15.toy_meets_contract"]
+REQUIRED = ["Sqfs.C15.ostream_transparent", "Sqfs.C15.ostream_transparent_single", "Sqfs.C15.ostream_flush_terminates",
+            "Sqfs.C15.istream_transparent", "Sqfs.C15.truncated_is_error", "Sqfs.C15.process_data_meets_contract_partial",
+            "Sqfs.C15.backend_ostream_transparent", "Sqfs.C15.toy_library_meets_convention",
+            "Sqfs.C15.toy_encoder_meets_contract", "Sqfs.C15.toy_decoder_meets_contract", "Sqfs.C15.toy_decode_encode"]
 CODECS = ["gzip", "xz", "bzip2", "zstd"]
 MAGIC_LEN = {"gzip": 3, "xz": 6, "zstd": 4, "bzip2": 3}
 JOBS = int(os.environ.get("VERIF_JOBS", "3"))       # parallel tool runs (the machine may be shared)
